@@ -139,7 +139,7 @@ pub fn check_stream(captured: &[u8], issued: &[Issued]) -> Result<StreamStats, F
     Ok(stats)
 }
 
-fn small_rcvbuf_listener() -> std::io::Result<(std::net::TcpListener, SocketAddr)> {
+pub(crate) fn small_rcvbuf_listener() -> std::io::Result<(std::net::TcpListener, SocketAddr)> {
     use socket2::{Domain, Socket, Type};
     let s = Socket::new(Domain::IPV4, Type::STREAM, None)?;
     s.set_recv_buffer_size(4096)?;
@@ -706,14 +706,20 @@ fn ab_case() -> BoxedStrategy<AbCase> {
 
 /// Erased handler: the request body's first 4 bytes (LE) give the response size,
 /// byte 4 the fill byte.
-struct Sized;
+struct Sized {
+    /// the handler sets its own response query instead of having the request's echoed
+    own_query: bool,
+}
+
+const OWN_QUERY: &str = "/own/response/query";
 
 impl HandlerErased for Sized {
     fn handle(&self, req: &Message) -> Result<Message, RepeError> {
         let len = u32::from_le_bytes(req.body[..4].try_into().unwrap()) as usize;
         let f = req.body[4];
-        Ok(Message::builder()
-            .id(req.header.id)
+        let b = Message::builder().id(req.header.id);
+        let b = if self.own_query { b.query_str(OWN_QUERY) } else { b };
+        Ok(b
             .query_format(repe::QueryFormat::JsonPointer)
             .body_bytes(vec![f; len])
             .body_format_code(0x7005)
@@ -728,10 +734,12 @@ pub struct SrvCase {
     pub stall_delta_ms: i16,
     pub followups: u8,
     pub small_first: bool,
+    #[serde(default)]
+    pub own_query: bool,
 }
 
 pub fn check_server_stall(c: &SrvCase) -> CheckResult {
-    let router = Router::new().with_erased_handler("/sized", Arc::new(Sized));
+    let router = Router::new().with_erased_handler("/sized", Arc::new(Sized { own_query: c.own_query }));
     let wt = Duration::from_millis(c.timeout_ms as u64);
     let addr: SocketAddr = if c.asynchronous {
         block_on(async {
@@ -773,7 +781,7 @@ pub fn check_server_stall(c: &SrvCase) -> CheckResult {
     }
     for (_, len, f) in &reqs {
         issued.push(Issued {
-            path: "/sized".into(),
+            path: if c.own_query { OWN_QUERY.into() } else { "/sized".into() },
             body_len: *len,
             fill: *f,
             body_format: 0x7005,
@@ -808,13 +816,14 @@ pub fn check_server_stall(c: &SrvCase) -> CheckResult {
 }
 
 fn srv_case() -> BoxedStrategy<SrvCase> {
-    (any::<bool>(), 15u16..60, prop_oneof![3 => 20i16..150, 1 => -15i16..20], 1u8..4, any::<bool>())
-        .prop_map(|(asynchronous, timeout_ms, stall_delta_ms, followups, small_first)| SrvCase {
+    (any::<bool>(), 15u16..60, prop_oneof![3 => 20i16..150, 1 => -15i16..20], 1u8..4, any::<bool>(), any::<bool>())
+        .prop_map(|(asynchronous, timeout_ms, stall_delta_ms, followups, small_first, own_query)| SrvCase {
             asynchronous,
             timeout_ms,
             stall_delta_ms,
             followups,
             small_first,
+            own_query,
         })
         .boxed()
 }
